@@ -62,6 +62,15 @@ static void run_script(Tape &t, Ctx &c, int ver, const Suite &su, bool c2s, std:
         O.push_back(u[0]); pt.push_back(m);
     }
     if (O.empty()) throw Discard{};
+    // DTLS, variant of "replay-earlier": a burst of K datagrams is withheld so that the receive window jumps, the datagram after the burst
+    // is delivered, then everything delivered before is replayed, the withheld ones arrive late, and everything is replayed again.
+    // K is chosen around the window sizes (32 / 64 sequence numbers).
+    size_t gapK = 0, nbase = O.size();
+    if (s.dtls && op == OP_REPLAY && (opc & 3) == 0) {
+        static const size_t KS[] = { 30, 31, 32, 33, 62, 63, 64, 65 }; gapK = KS[opb % 8];
+        for (size_t j = 0; j <= gapK; j++) { Bytes m = msg_bytes(100 + (int) j, 6 + j % 9); m[0] = (uint8_t) ('a' + j % 26); m[1] = (uint8_t) ('A' + (j / 26) % 26); std::vector<Bytes> u; if (!send_one(*s.snd, m, u, true) || u.size() != 1) VF_FAIL("harness-send-failed", "gap burst; %s", desc.c_str()); O.push_back(u[0]); pt.push_back(m); }
+        c.count(fmt("dtls-window-gap:%zu", gapK));
+    }
     if (c.verbose) for (auto &o : O) fprintf(stderr, "  unit: %s\n", hex(o.data(), std::min(o.size(), HDR)).c_str());
     // --- apply the edit
     std::vector<Bytes> E = O; size_t n = O.size();
@@ -78,7 +87,8 @@ static void run_script(Tape &t, Ctx &c, int ver, const Suite &su, bool c2s, std:
     case OP_DROP: E.erase(E.begin() + i); break;
     case OP_DUP: { Bytes cp = O[i]; size_t at = i + 1 + (n > i + 1 ? opb % (n - i) : 0); E.insert(E.begin() + std::min(at, E.size()), cp); break; }
     case OP_SWAP: if (i + 1 < n) std::swap(E[i], E[i + 1]); else if (n >= 2) std::swap(E[n - 2], E[n - 1]); else op = OP_NONE; break;
-    case OP_REPLAY: { if (n < 2) { E.push_back(O[0]); break; } size_t from = opb % (n - 1); size_t at = from + 2 + opc % (n - from - 1); E.insert(E.begin() + std::min(at, E.size()), O[from]); break; }
+    case OP_REPLAY: { if (gapK) { E.assign(O.begin(), O.begin() + nbase); E.push_back(O.back()); for (size_t j = 0; j < nbase; j++) E.push_back(O[j]); for (size_t j = nbase; j + 1 < O.size(); j++) E.push_back(O[j]); for (auto &x : O) E.push_back(x); break; }
+        if (n < 2) { E.push_back(O[0]); break; } size_t from = opb % (n - 1); size_t at = from + 2 + opc % (n - from - 1); E.insert(E.begin() + std::min(at, E.size()), O[from]); break; }
     case OP_REFLECT: E.insert(E.begin() + i, reflect); break;
     case OP_PARALLEL: E.insert(E.begin() + i, parallel); break;
     case OP_IV: { size_t L = r.size() - HDR; size_t k = std::min((size_t) (s.su.aead ? 8 : 16), L); if (k == 0) { op = OP_NONE; break; } bool ch = false; for (size_t j = 0; j < k; j++) { uint8_t nv = (opb & 1) ? 0 : (uint8_t) (opc >> (8 * (j % 8))); if (r[HDR + j] != nv) ch = true; r[HDR + j] = nv; } if (!ch) r[HDR] ^= 0x80; break; }
